@@ -18,8 +18,8 @@ ROOT = os.path.dirname(os.path.dirname(os.path.abspath(__file__)))
 REPO = os.environ.get("VERIF_REPO", "/repo")
 BUILD_DIR = os.path.join(ROOT, ".build")
 DRIVERS = os.path.join(ROOT, "drivers")
-EVIDENCE_DIR = os.path.join(ROOT, "evidence")
-REPLAY_DIR = os.path.join(ROOT, "replay")
+EVIDENCE_DIR = os.environ.get("VERIF_EVIDENCE_DIR") or os.path.join(ROOT, "evidence")
+REPLAY_DIR = os.environ.get("VERIF_REPLAY_DIR") or os.path.join(ROOT, "replay")
 FINDINGS_FILE = os.path.join(ROOT, "known_findings.json")
 GUARD = "LIBLCB_VERIF"
 NCPU = min(16, os.cpu_count() or 1)
